@@ -7,7 +7,7 @@ import numpy as np
 import gen
 from core import fr, w_rat, w_rats, w_bool, p_rats, cmp_exact, cmp_budget, call_impl
 
-PROP_MODULES = ['C14', 'C14Gen']
+PROP_MODULES = ['C14', 'C14Gen', 'C14GenInterp']
 EXHAUSTIVE = True
 RULE = ("corpus (F14-1 witness n=33/.01/.09/even, decimal pairs .3/.1 .06/.02 .07/.01 .01/.07, dt==target, 1/49) ; exhaustive: all ratios "
         "dt:target = p:q with p,q <= 12 on a dyadic base (1/64) and a decimal base (.01) x n in a small set x even in {T,F}; binary64 "
@@ -500,6 +500,12 @@ def run(ctx):
             target = dt * m
             N = 2 * m * rng.randint(3, 40) if (even and rng.random() < 0.85) else m * rng.randint(6, 80)
         bandlimited(N, dt, target, even)
+    # LONG records of awkward (prime, non-smooth) and smooth lengths: the Fourier clause has no length limit
+    for N, k_or_m, refine in ([(4999, 2, True), (8191, 2, True), (10010, 5, False)] if quick else
+                              [(4999, 2, True), (8191, 2, True), (10010, 5, False), (5003, 3, True), (16384, 2, True), (12007, 1, True), (9973 * 2, 2, False)]):
+        dt = rng.choice([0.01, 0.02])
+        ctx.hist('band-limited: long record')
+        bandlimited(N, dt, dt / k_or_m if refine else dt * k_or_m, (N * k_or_m) % 2 == 0 if refine else False)
 
     # ------------------------------------------------------------------------------------------------------------
     # consumer
